@@ -179,6 +179,13 @@ Theorem c25_full_total_valid :
                 rdata_validate (rr_class (snd it)) (rr_type (snd it)) (rr_rdata (snd it)) = Ok true) items.
 Proof. exact full_run_total_valid. Qed.
 
+(* [has_parent], the hypothesis of the theorems above (the assumption written in compute_path's doc
+   comment), excludes exactly the empty path and "/" — neither can be opened as a zone file. *)
+Theorem c25_has_parent_iff : forall p : path, has_parent p <-> p <> [] /\ p <> [47%N].
+Proof.
+  intros p. unfold has_parent. rewrite path_parent_none. tauto.
+Qed.
+
 (* WHAT CROSSES AN INCLUDE BOUNDARY, in the fields of zone_file::Context.  At an $INCLUDE line that
    can be followed, the expansion is: the included file parsed by a fresh parser (reader at line 1,
    column 1, outside parentheses, no error) whose context is the includer's previous owner,
@@ -273,3 +280,4 @@ Print Assumptions c25_full_include_boundary.
 Print Assumptions c25_full_include_directory.
 Print Assumptions c25_lines_are_iter.
 Print Assumptions c25_relative_paths.
+Print Assumptions c25_has_parent_iff.
